@@ -3,7 +3,9 @@ import MaddyVerif.Model.Errors
 Model of `internal/dsn/dsn.go` (and of `framework/address`: `Split`, `ToASCII`, `ToUnicode`,
 `SelectIDNA`): `GenerateDSN`, `ReportingMTAInfo.WriteTo`, `RecipientInfo.WriteTo`,
 `writeHumanReadablePart`, `writeMachineReadablePart`, `writeHeader`, `fieldText` (the tree after the
-fix: commits "text/rfc822-headers", "ASCII Diagnostic-Code" and "control characters in Diagnostic-Code").
+fix: commits "text/rfc822-headers", "ASCII Diagnostic-Code", "control characters in Diagnostic-Code"
+and "a client HELO name that cannot be converted … made the queue drop the failure report":
+`Received-From-MTA` is left out when the name cannot be converted, `rcvdField`).
 
 The report is kept abstract: the top-level header fields that matter, the media types of the three
 parts, the per-message and per-recipient field groups of the delivery-status part as structured
@@ -190,7 +192,7 @@ deriving Repr, DecidableEq
 /-- Why generation failed (the first error met, in the order the Go code meets them);
 `panic` = nil `DiagnosticCode` dereferenced. -/
 inductive GenErr
-  | mtaMissing | mtaConv | rcvdConv | senderConv
+  | mtaMissing | mtaConv | senderConv
   | rcptMissing | rcptConv | actionMissing | statusMissing | remoteConv
   | panic
 deriving Repr, DecidableEq
@@ -204,31 +206,29 @@ total over all strings; CR, LF and every other control character except the hori
 become a space (`strings.Map`), everything else is copied. -/
 def oneLine (s : Str) : Str := s.map (fun c => if isCtl c then 32 else c)
 
+/-- The optional `Received-From-MTA` field of `ReportingMTAInfo.WriteTo`: the name the client gave
+in HELO/EHLO in the form the report type requires; LEFT OUT when there is no name or when
+`dns.SelectIDNA` cannot convert it (e.g. a malformed A-label) — never an error. -/
+def rcvdField (ix : Idna) (utf8 : Bool) (name : Str) : Option Str :=
+  if name.isEmpty then none else ix.dom utf8 name
+
 /-- `ReportingMTAInfo.WriteTo`. -/
 def mtaGroup (ix : Idna) (utf8 : Bool) (m : MtaInfo) : Except GenErr MtaGroup :=
   if m.reportingMTA.isEmpty then .error .mtaMissing else
   match ix.dom utf8 m.reportingMTA with
   | none => .error .mtaConv
   | some rm =>
-    let rcvd : Except GenErr (Option Str) :=
-      if m.receivedFromMTA.isEmpty then .ok none else
-      match ix.dom utf8 m.receivedFromMTA with
-      | none => .error .rcvdConv
-      | some d => .ok (some d)
-    match rcvd with
+    let snd : Except GenErr (Option (AddrType × Str)) :=
+      if m.xSender.isEmpty then .ok none else
+      match ix.addr utf8 m.xSender with
+      | none => .error .senderConv
+      | some a => .ok (some (addrType utf8, a))
+    match snd with
     | .error e => .error e
-    | .ok rcvd =>
-      let snd : Except GenErr (Option (AddrType × Str)) :=
-        if m.xSender.isEmpty then .ok none else
-        match ix.addr utf8 m.xSender with
-        | none => .error .senderConv
-        | some a => .ok (some (addrType utf8, a))
-      match snd with
-      | .error e => .error e
-      | .ok snd =>
-        .ok { reportingMTA := rm, receivedFrom := rcvd, xSender := snd,
-              xMsgId := if m.xMsgId.isEmpty then none else some m.xMsgId,
-              dates := m.hasArrival }
+    | .ok snd =>
+      .ok { reportingMTA := rm, receivedFrom := rcvdField ix utf8 m.receivedFromMTA, xSender := snd,
+            xMsgId := if m.xMsgId.isEmpty then none else some m.xMsgId,
+            dates := m.hasArrival }
 
 /-- The `Diagnostic-Code` decision of `RecipientInfo.WriteTo`; `none` = nil dereference. -/
 def diagOut (utf8 : Bool) : DiagIn → Option DiagOut
